@@ -17,6 +17,9 @@ CHECKS = {
  "C03": ("exploration", "runtime monitor: independent expected-status oracle (code, message, details) against the caller-observed outcome; rendezvous hook holding the trailer in the server writer while late bodies race it; scripted foreign peer",
          "All 16 non-OK codes x error kinds x message classes x 0..3 details x positions x 4 RPC kinds through real client and server, plus the handler-fails-while-caller-sends race forced at the writer hook and 9 foreign reply shapes (explicit OK, status without metadata, resets). Success must coincide exactly with a nil handler error.",
          "Expected status is computed by the harness from the handler's error value per the property text (wrapped errors may carry inner or outer message).", "DESIGN.md 2/C03"),
+ "C09": ("fault_enumeration", "fault injection in the harness transport at every response-prefix position x write-side mode, rendezvous hook for the check-then-register window, final-state hang detection, tap-based 'complete response delivered' oracle",
+         "Per scenario the read failure is placed after every prefix 0..L of the response sequence (exhaustive per scenario), with the write side failing or discarding, with calls started before, inside the check/register window (forced by rendezvous) and after the failure. Each call must have returned at the next final state; success is accepted only if the tap shows its complete response read before the failure and the result is exact.",
+         "Schedules between positions are sampled (GOMAXPROCS, jitter); final-state detector and harness link are trusted.", "DESIGN.md 2/C09"),
 }
 NOT_YET = "check not built yet in this round (runtime-monitoring design in DESIGN.md section 2); will be claimed once its monitor exists"
 
